@@ -47,8 +47,8 @@ def build_cases(tier, seed):
 
 
 FLOORS = {
-    "quick": {"c07_stationary_checks": 10000, "c07_route_checks": 10000, "c07_pickups": 200, "c07_dropoffs": 200, "c07_reposition_checks": 100, "c07_trips_ended": 200, "c07_servicing_steps_with_at_most_two_links_left": 100, "sys_transitions": 20000, "sys_states": 3000},
-    "thorough": {"c07_stationary_checks": 300000, "c07_route_checks": 300000, "c07_pickups": 5000, "c07_dropoffs": 5000, "c07_reposition_checks": 3000, "c07_trips_ended": 5000, "c07_servicing_steps_with_at_most_two_links_left": 2000, "sys_transitions": 500000, "sys_states": 50000},
+    "quick": {"c07_stationary_checks": 10000, "c07_route_checks": 10000, "c07_pickups": 200, "c07_dropoffs": 200, "c07_reposition_checks": 100, "c07_trips_ended": 200, "c07_servicing_steps_with_at_most_two_links_left": 100, "sys_transitions": 20000, "sys_states": 3000, "cosim_stale_copy_written_back_from_another_place": 15},
+    "thorough": {"c07_stationary_checks": 300000, "c07_route_checks": 300000, "c07_pickups": 5000, "c07_dropoffs": 5000, "c07_reposition_checks": 3000, "c07_trips_ended": 5000, "c07_servicing_steps_with_at_most_two_links_left": 2000, "sys_transitions": 500000, "sys_states": 50000, "cosim_stale_copy_written_back_from_another_place": 60},
 }
 
 
